@@ -20,7 +20,7 @@ IsOff(e) == e.k = "off" \/ (e.k = "on" /\ e.v = 0)
 IsOn(e)  == e.k = "on" /\ e.v > 0
 IsCtl(e) == e.k \in {"cc", "pc", "bend", "cat"}
 IsMetaCls(e) == e.k \in {"marker", "loopstart", "cc111", "loopend", "begin"}
-IsSysex(e) == e.k = "sysex"
+IsSysex(e) == e.k \in {"sysex", "sysex7"}
 RECURSIVE MoveOffs(_, _, _, _, _)
 \* scan noteOffs for note p of a note-on; returns [offs, moved, cnt]
 MoveOffs(offs, j, p, wasOn, acc) ==
